@@ -1,0 +1,27 @@
+//go:build verif && amd64 && go1.17 && !go1.27
+// +build verif,amd64,go1.17,!go1.27
+
+package jitdec
+
+import "reflect"
+
+// VerifExportPcsp compiles and assembles the decoder of vt (not loaded, not cached) and returns the size of the
+// generated text, its PC -> SP-delta table as handed to the loader, and the pointer maps and sizes declared for it.
+func VerifExportPcsp(vt reflect.Type) (size int, pcs []uint32, vals []int32, argPtrs []bool, localPtrs []bool, argSize int, frameSize int, err error) {
+	p, err := newCompiler().compile(vt)
+	if err != nil {
+		return
+	}
+	a := newAssembler(p)
+	a.name = vt.String()
+	text, pcd := a.Export()
+	size = len(text)
+	for _, e := range pcd {
+		pcs = append(pcs, e.PC)
+		vals = append(vals, e.Val)
+	}
+	return size, pcs, vals, argPtrs_(), localPtrs_(), _FP_args, _FP_size, nil
+}
+
+func argPtrs_() []bool   { return append([]bool(nil), argPtrs...) }
+func localPtrs_() []bool { return append([]bool(nil), localPtrs...) }
